@@ -340,6 +340,21 @@ def model_record(rid, reaction, model, *, aligned=False, do_formula=True, do_par
         amps = []
         for a in ampl.project_amplitudes(model):
             amps.append({"top": a["top"], "hel2": a["hel2"], "zero": a["zero"], "terms": [{"sign_num": t["sign_num"], "sign_den": t["sign_den"], "D": t["D"], "CG": t["CG"], "coef": t["coef"]} for t in a["terms"]]})
+        # the named chain components A_{...} add up to the amplitude they belong to (sign included); judged when no two final-state
+        # particles are identical (symmetrisation variants share one component name)
+        from ampform.helicity.naming import create_amplitude_symbol
+
+        fs_names = [reaction.transitions[0].states[i].particle.name for i in reaction.transitions[0].topology.outgoing_edge_ids]
+        by_symbol = {}
+        for tr in reaction.transitions:
+            by_symbol.setdefault(create_amplitude_symbol(tr), []).append(model.components.get("A_{" + gen.generate_amplitude_name(tr) + "}"))
+        for a, (symbol, expr) in zip(amps, model.amplitudes.items()):
+            comps = by_symbol.get(symbol)
+            if len(set(fs_names)) < len(fs_names) or not comps or any(c is None for c in comps):
+                a["comp_sum"] = -1
+            else:
+                total = sp.Add(*comps)
+                a["comp_sum"] = int(total == expr or sp.expand(total - expr) == 0)
         rec["chains"], rec["amps"] = chains, amps
         # named intensity components I_{...}: |coherent sum over every chain with these outer projections|^2
         from ampform.helicity.naming import generate_transition_label
